@@ -22,11 +22,11 @@ def configs(tier):
     def lnv(sp, threads):
         cs.append(Config('%s-lnv-t%d' % (short(sp), threads), 'C18', [2, sp, threads], max_paths=1, defines=D, timeout=60, validate=(threads == 0)))
     if tier == 'quick':
-        man(1, 3, 2, 'nncn', 60); man(2, 3, 1, 'ncrn', 40); man(1, 2, 2, 'nrnc', 40)
+        man(1, 3, 2, 'nncn', 60); man(2, 3, 1, 'ncrn', 40); man(1, 2, 2, 'nrnc', 40); man(1, 3, 1, 'nRnc', 60); man(2, 2, 2, 'nnRc', 40)
         con(spec('sequence', 'rleja', 2, 1, 1), 1, 4, 1); con(spec('localp', 'localp', 2, 1, 1, order=1), 1, 2, 2); con(spec('global', 'clenshaw-curtis', 2, 1, 1), 0, 1, 2); con(spec('localp', 'localp', 2, 2, 1, order=1), 0, 1, 1)
         lnv(spec('localp', 'localp', 2, 1, 2, order=1), 3); lnv(spec('global', 'clenshaw-curtis', 2, 2, 2), 2); lnv(spec('sequence', 'leja', 2, 1, 2), 0)
     else:
-        for ops in ('nncn', 'ncrn', 'nrnc', 'nnnc', 'ncnc', 'rnnc', 'nccr'):
+        for ops in ('nncn', 'ncrn', 'nrnc', 'nnnc', 'ncnc', 'rnnc', 'nccr', 'nRnc', 'nnRc', 'ncRn', 'nRcR', 'nRRn'):
             man(1, 3, 2, ops, 400); man(2, 3, 1, ops, 300); man(2, 2, 3, ops, 300)
         for sp in (spec('sequence', 'rleja', 2, 1, 1), spec('sequence', 'leja', 2, 2, 1), spec('global', 'clenshaw-curtis', 2, 1, 1), spec('global', 'leja', 2, 1, 1), spec('localp', 'localp', 2, 1, 1, order=1), spec('localp', 'semi-localp', 2, 1, 1, order=2),
                    spec('localp', 'localp-zero', 2, 2, 1, order=1), spec('fourier', 'fourier', 2, 1, 1), spec('wavelet', 'wavelet', 1, 1, 1, order=1)):
